@@ -10,7 +10,8 @@
     incl. reverse patches of the fix commits) and the independently seeded changes under `seeded/` that this property's check
     is recorded as catching — is applied to a scratch copy of /repo's *current* tree outside /repo and /verif, facts are
     extracted for it and the property's quick check is run on the copy.  A firing patch must produce a violation, a
-    `*benign*` patch none.  Patches that no longer apply to the current tree are counted as skipped.  The outcome is
+    `*benign*` patch none; the behaviour-preserving patches of benign/ on which this property's check once raised a false alarm
+    are replayed too and must stay silent.  Patches that no longer apply to the current tree are counted as skipped.  The outcome is
     written to the evidence file; it never turns into a VIOLATION line, because a self-test miss says something about the
     checker, not about the tree being checked.
 No step executes rsjsonnet.
@@ -87,6 +88,16 @@ def corpus(prop):
             p = os.path.join(os.path.dirname(vd), "patch.diff")
             if os.path.exists(p):
                 out.append((os.path.relpath(p, VERIF), p, False))
+    # behaviour-preserving patches on which this property's check once raised a false alarm (DESIGN §9): must stay silent
+    for vf in sorted(glob.glob(os.path.join(VERIF, "benign", "*", "*.diff.verdict-first.json"))):
+        try:
+            v = json.load(open(vf))
+        except Exception:
+            continue
+        if prop in (v.get("alarms") or {}):
+            p = vf[:-len(".verdict-first.json")]
+            if os.path.exists(p):
+                out.append((os.path.relpath(p, VERIF), p, True))
     return out
 
 
